@@ -9,15 +9,42 @@ use proptest::prelude::*;
 use serde::{Deserialize, Serialize};
 
 pub const TYPES: usize = 8;
-pub const TYPE_NAMES: [&str; 8] = ["binary", "double", "bos", "counter", "frozen_counter", "analog", "aos", "octet"];
+pub const TYPE_NAMES: [&str; 8] = [
+    "binary",
+    "double",
+    "bos",
+    "counter",
+    "frozen_counter",
+    "analog",
+    "aos",
+    "octet",
+];
 /// static group of each point type
 pub const STATIC_GROUP: [u8; 8] = [1, 3, 10, 20, 21, 30, 40, 110];
 /// event group of each point type
 pub const EVENT_GROUP: [u8; 8] = [2, 4, 11, 22, 23, 32, 42, 111];
 /// configurable static variations per type
-pub const STATIC_VARS: [&[u8]; 8] = [&[1, 2], &[1, 2], &[1, 2], &[1, 2, 5, 6], &[1, 2, 5, 6, 9, 10], &[1, 2, 3, 4, 5, 6], &[1, 2, 3, 4], &[0]];
+pub const STATIC_VARS: [&[u8]; 8] = [
+    &[1, 2],
+    &[1, 2],
+    &[1, 2],
+    &[1, 2, 5, 6],
+    &[1, 2, 5, 6, 9, 10],
+    &[1, 2, 3, 4, 5, 6],
+    &[1, 2, 3, 4],
+    &[0],
+];
 /// configurable event variations per type
-pub const EVENT_VARS: [&[u8]; 8] = [&[1, 2, 3], &[1, 2, 3], &[1, 2], &[1, 2, 5, 6], &[1, 2, 5, 6], &[1, 2, 3, 4, 5, 6, 7, 8], &[1, 2, 3, 4, 5, 6, 7, 8], &[0]];
+pub const EVENT_VARS: [&[u8]; 8] = [
+    &[1, 2, 3],
+    &[1, 2, 3],
+    &[1, 2],
+    &[1, 2, 5, 6],
+    &[1, 2, 5, 6],
+    &[1, 2, 3, 4, 5, 6, 7, 8],
+    &[1, 2, 3, 4, 5, 6, 7, 8],
+    &[0],
+];
 
 #[derive(Clone, Debug, Serialize, Deserialize, PartialEq)]
 pub struct PointSpec {
@@ -47,7 +74,11 @@ pub fn add_point(db: &mut Database, p: &PointSpec) -> bool {
             p.index,
             class,
             BinaryInputConfig::new(
-                if p.svar == 1 { StaticBinaryInputVariation::Group1Var1 } else { StaticBinaryInputVariation::Group1Var2 },
+                if p.svar == 1 {
+                    StaticBinaryInputVariation::Group1Var1
+                } else {
+                    StaticBinaryInputVariation::Group1Var2
+                },
                 match p.evar {
                     1 => EventBinaryInputVariation::Group2Var1,
                     2 => EventBinaryInputVariation::Group2Var2,
@@ -59,7 +90,11 @@ pub fn add_point(db: &mut Database, p: &PointSpec) -> bool {
             p.index,
             class,
             DoubleBitBinaryInputConfig::new(
-                if p.svar == 1 { StaticDoubleBitBinaryInputVariation::Group3Var1 } else { StaticDoubleBitBinaryInputVariation::Group3Var2 },
+                if p.svar == 1 {
+                    StaticDoubleBitBinaryInputVariation::Group3Var1
+                } else {
+                    StaticDoubleBitBinaryInputVariation::Group3Var2
+                },
                 match p.evar {
                     1 => EventDoubleBitBinaryInputVariation::Group4Var1,
                     2 => EventDoubleBitBinaryInputVariation::Group4Var2,
@@ -71,8 +106,16 @@ pub fn add_point(db: &mut Database, p: &PointSpec) -> bool {
             p.index,
             class,
             BinaryOutputStatusConfig::new(
-                if p.svar == 1 { StaticBinaryOutputStatusVariation::Group10Var1 } else { StaticBinaryOutputStatusVariation::Group10Var2 },
-                if p.evar == 1 { EventBinaryOutputStatusVariation::Group11Var1 } else { EventBinaryOutputStatusVariation::Group11Var2 },
+                if p.svar == 1 {
+                    StaticBinaryOutputStatusVariation::Group10Var1
+                } else {
+                    StaticBinaryOutputStatusVariation::Group10Var2
+                },
+                if p.evar == 1 {
+                    EventBinaryOutputStatusVariation::Group11Var1
+                } else {
+                    EventBinaryOutputStatusVariation::Group11Var2
+                },
             ),
         ),
         3 => db.add(
@@ -181,7 +224,13 @@ pub struct Rec {
 }
 
 fn time_of(t: Option<(u64, bool)>) -> Option<Time> {
-    t.map(|(ms, sync)| if sync { Time::Synchronized(Timestamp::new(ms)) } else { Time::Unsynchronized(Timestamp::new(ms)) })
+    t.map(|(ms, sync)| {
+        if sync {
+            Time::Synchronized(Timestamp::new(ms))
+        } else {
+            Time::Unsynchronized(Timestamp::new(ms))
+        }
+    })
 }
 
 fn double_bit(v: u8) -> DoubleBit {
@@ -198,13 +247,69 @@ pub fn update_point(db: &mut Database, r: &Rec, options: UpdateOptions) -> Updat
     let flags = Flags::new(r.flags);
     let time = time_of(r.time);
     match r.ty {
-        0 => db.update2(r.index, &BinaryInput { value: r.value != 0.0, flags, time }, options),
-        1 => db.update2(r.index, &DoubleBitBinaryInput { value: double_bit(r.value as u8), flags, time }, options),
-        2 => db.update2(r.index, &BinaryOutputStatus { value: r.value != 0.0, flags, time }, options),
-        3 => db.update2(r.index, &Counter { value: r.value as u32, flags, time }, options),
-        4 => db.update2(r.index, &FrozenCounter { value: r.value as u32, flags, time }, options),
-        5 => db.update2(r.index, &AnalogInput { value: r.value, flags, time }, options),
-        6 => db.update2(r.index, &AnalogOutputStatus { value: r.value, flags, time }, options),
+        0 => db.update2(
+            r.index,
+            &BinaryInput {
+                value: r.value != 0.0,
+                flags,
+                time,
+            },
+            options,
+        ),
+        1 => db.update2(
+            r.index,
+            &DoubleBitBinaryInput {
+                value: double_bit(r.value as u8),
+                flags,
+                time,
+            },
+            options,
+        ),
+        2 => db.update2(
+            r.index,
+            &BinaryOutputStatus {
+                value: r.value != 0.0,
+                flags,
+                time,
+            },
+            options,
+        ),
+        3 => db.update2(
+            r.index,
+            &Counter {
+                value: r.value as u32,
+                flags,
+                time,
+            },
+            options,
+        ),
+        4 => db.update2(
+            r.index,
+            &FrozenCounter {
+                value: r.value as u32,
+                flags,
+                time,
+            },
+            options,
+        ),
+        5 => db.update2(
+            r.index,
+            &AnalogInput {
+                value: r.value,
+                flags,
+                time,
+            },
+            options,
+        ),
+        6 => db.update2(
+            r.index,
+            &AnalogOutputStatus {
+                value: r.value,
+                flags,
+                time,
+            },
+            options,
+        ),
         _ => match OctetString::new(&r.bytes) {
             Ok(s) => db.update2(r.index, &s, options),
             Err(_) => UpdateInfo::NoPoint,
@@ -215,14 +320,35 @@ pub fn update_point(db: &mut Database, r: &Rec, options: UpdateOptions) -> Updat
 /// a value for point (ty, index) that differs from the previous one of that point (so Detect mode records an event)
 /// and encodes (type, index, serial): cross-wiring, duplication and resurrection are visible by value.
 /// All values stay representable in every variation (C10 owns the out-of-range cases).
-pub fn unique_rec(ty: u8, index: u16, point_serial: u32, global_serial: u32, flags_extra: u8) -> Rec {
+pub fn unique_rec(
+    ty: u8,
+    index: u16,
+    point_serial: u32,
+    global_serial: u32,
+    flags_extra: u8,
+) -> Rec {
     let s = point_serial;
     let (value, bytes) = match ty {
         0 | 2 => ((s % 2) as f64, vec![]),
         1 => ((s % 4) as f64, vec![]),
-        3 | 4 => ((((index as u32 % 50) * 1000 + (s % 1000)) % 60000) as f64, vec![]),
-        5 | 6 => (((index as i32 % 30) * 1000 + (s % 1000) as i32 - 500) as f64, vec![]),
-        _ => (0.0, vec![ty, index as u8, s as u8, (s >> 8) as u8, global_serial as u8]),
+        3 | 4 => (
+            (((index as u32 % 50) * 1000 + (s % 1000)) % 60000) as f64,
+            vec![],
+        ),
+        5 | 6 => (
+            ((index as i32 % 30) * 1000 + (s % 1000) as i32 - 500) as f64,
+            vec![],
+        ),
+        _ => (
+            0.0,
+            vec![
+                ty,
+                index as u8,
+                s as u8,
+                (s >> 8) as u8,
+                global_serial as u8,
+            ],
+        ),
     };
     // flags: ONLINE plus quality bits 1..=4 derived from the serial, so that 32 consecutive updates of one point
     // differ in (value, flags) even in variations without time
@@ -234,27 +360,50 @@ pub fn unique_rec(ty: u8, index: u16, point_serial: u32, global_serial: u32, fla
         1 => flags | ((value as u8) << 6),
         _ => flags,
     };
-    Rec { ty, index, value, bytes, flags, time: Some((1_000_000 + global_serial as u64 * 7, true)) }
+    Rec {
+        ty,
+        index,
+        value,
+        bytes,
+        flags,
+        time: Some((1_000_000 + global_serial as u64 * 7, true)),
+    }
 }
 
 pub fn point_strategy(max_index: u16) -> impl Strategy<Value = PointSpec> {
-    (0u8..8, prop_oneof![0u16..4, 0u16..=max_index], 0u8..=3, any::<u8>(), any::<u8>()).prop_map(|(ty, index, class, s, e)| {
-        let sv = STATIC_VARS[ty as usize];
-        let ev = EVENT_VARS[ty as usize];
-        PointSpec { ty, index, class, svar: sv[s as usize % sv.len()], evar: ev[e as usize % ev.len()] }
-    })
+    (
+        0u8..8,
+        prop_oneof![0u16..4, 0u16..=max_index],
+        0u8..=3,
+        any::<u8>(),
+        any::<u8>(),
+    )
+        .prop_map(|(ty, index, class, s, e)| {
+            let sv = STATIC_VARS[ty as usize];
+            let ev = EVENT_VARS[ty as usize];
+            PointSpec {
+                ty,
+                index,
+                class,
+                svar: sv[s as usize % sv.len()],
+                evar: ev[e as usize % ev.len()],
+            }
+        })
 }
 
 /// READ request for event classes
 pub fn read_classes(seq: u8, classes: &[u8]) -> Fragment {
     let mut o = vec![];
     for c in classes {
-        o.extend(ra::h_all(60, match c {
-            0 => 1,
-            1 => 2,
-            2 => 3,
-            _ => 4,
-        }));
+        o.extend(ra::h_all(
+            60,
+            match c {
+                0 => 1,
+                1 => 2,
+                2 => 3,
+                _ => 4,
+            },
+        ));
     }
     Fragment::request(seq, func::READ, o)
 }
@@ -264,7 +413,15 @@ pub fn enable_unsol(seq: u8, enable: bool, classes: &[u8]) -> Fragment {
     for c in classes {
         o.extend(ra::h_all(60, 1 + *c));
     }
-    Fragment::request(seq, if enable { func::ENABLE_UNSOLICITED } else { func::DISABLE_UNSOLICITED }, o)
+    Fragment::request(
+        seq,
+        if enable {
+            func::ENABLE_UNSOLICITED
+        } else {
+            func::DISABLE_UNSOLICITED
+        },
+        o,
+    )
 }
 
 /// drive the start-up null unsolicited response to confirmation; returns false if none was seen
